@@ -1,4 +1,5 @@
-//! C14: JSON serialisation and pretty-printed form of graphs vs the model (Model/Json.v, Model/Pretty.v).
+//! C14: JSON serialisation (value tree and text) and pretty-printed form of graphs vs the model
+//! (Model/Json.v, Model/JsonText.v, Model/Pretty.v).
 //!
 //! A case = a graph built through the public API (add_graph_node / add_edge / Attributes::add /
 //! add_syntax_node) or by executing a small generated DSL program.  Observations of the implementation:
@@ -8,6 +9,11 @@
 //!     (truncated addresses) are rewritten to preorder ids, the only canonicalisation done here.
 //!   * `to_string_pretty` (what display_json writes) and `to_string` re-parsed with serde_json and
 //!     compared with the value (serde_json against itself: a modelled dependency).
+//!   * the REAL text that `Graph::display_json(Some(path))` writes into a file (checked here to equal
+//!     `to_string_pretty(&graph)`), as a code-point list: the model (Model/JsonText.v, Model/C14TextObs.v)
+//!     parses it with its own JSON parser, prints the parsed tree with its own `print_pretty` and compares
+//!     the result with the real text character by character (verdict bit 32); the parsed tree must be the
+//!     `to_value` tree up to member order (the text has hash-map order, which the model reads off the text).
 //!   * `graph.pretty_print().to_string()` as a code-point list; the model compares the whole text and
 //!     also parses it back (split into lines, node/edge/attribute lines).
 //! The graph the model is run on is the in-memory API view (iter_nodes, iter_edges, Attributes::iter),
